@@ -121,8 +121,8 @@ func c08Exec(c *core.Ctx, cs c08Case) {
 			return
 		}
 		if l == 0 {
-			for _, mode := range []string{"parser-first", "lexer-first"} {
-				cmds2, _, err2, res := parseSched(src, sched.Mode{Default: mode == "lexer-first"})
+			for _, mode := range []string{"parser-first", "lexer-first", "lexer-first+held-at-heredoc-wait"} {
+				cmds2, _, err2, res := parseSched(src, sched.Mode{Default: mode != "parser-first", HoldPopWait: mode == "lexer-first+held-at-heredoc-wait"})
 				c.Count("sched/"+mode+"/runs", 1)
 				c.Count("sched/"+mode+"/forced-releases", res.Forced)
 				if res.PopWaitBeforePush {
@@ -162,7 +162,7 @@ func c08Gen(c *core.Ctx) {
 			continue
 		}
 		r := c.Rand("prog", int64(i))
-		o := gen.Options{Budget: 2 + r.IntN(10), Heredocs: true, HDBias: true, MaxHD: 1 + r.IntN(3), Flat: i%4 == 1}
+		o := gen.Options{Budget: 2 + r.IntN(10), Heredocs: true, HDBias: true, MaxHD: 1 + r.IntN(3), Flat: i%4 == 1, LeadHD: i%4 == 2}
 		core.Run(c, c08Case{Prog: gen.New(r, o).Program(), Seed: uint64(c.Seed)*2741 + uint64(i), Kind: "generated"}, c08Exec)
 	}
 }
